@@ -45,6 +45,29 @@ CLAIMED = {
           'mode-free interpretations, toggling) is modelled with the lsb0 method table and checked against the mirror of the msb0 reference on every run.'),
     note='PARTIAL proof: mirror theorems proved for index and positive-step slicing; the other operations are tied by correspondence (model with lsb0=true) and decided by the mirror oracle. Seven lsb0 defects found this way were repaired (known_findings.json).',
     technique='Coq proof (nia over div/mod) + vm_compute correspondence + mirror oracle', design='§5 C12'),
+ 'C06': dict(
+    text=('Coq model of the stream classes as a (bits, pos) machine: read/peek with fixed, stretchy, variable-length and integer tokens, readlist/peeklist/unpack with the stretchy-token arithmetic, readto, '
+          'pos/bytepos/bytealign, find/rfind, and every BitStream override that moves pos. Proved: peek/peeklist leave the stream unchanged and return read\'s value; a failing read/readlist restores the state; '
+          'a read keeps 0<=pos<=len (needs: decoders move forward and stay inside the data, Dtype lengths are non-negative - the latter was false on the pinned tree and is now repaired); readlist positions are monotone and bounded. '
+          'Histories of 3-25 operations are compared step by step with the model and with an independent (bits, pos) reference machine.'),
+    note='PARTIAL proof: the invariant over whole histories including the mutator overrides is carried by correspondence + reference machine for now; the read-side theorems are proved. Trusted: token interpretations are those of C02/C10.',
+    technique='Coq proof (case analysis, induction over token lists) + vm_compute correspondence + reference machine', design='§5 C06'),
+ 'C08': dict(
+    text=('Coq model of BitStore\'s buffer + modified_length mechanism and of _setfile/_setbytes_with_truncation/_setbitarray/BytesIO windows. Proved: every file route yields a well-formed store whose bits are exactly the selected window; '
+          'on well-formed stores len, ==, count, indexing, invert, +, copy depend only on the content (the pinned tree built stores that were not well formed - repaired). '
+          'Each run builds every content through ~26 routes incl. real temporary files and compares ~65 operations with the bin= object under msb0 and lsb0.'),
+    note='Trusted: a file is its bytes (mmap not modelled); the differential battery is the tie for the public API; window models are tied in the C17 check.',
+    technique='Coq proof (well-formedness invariant) + route-differential battery', design='§5 C08'),
+ 'C13': dict(
+    text=('Coq theorems: == on well-formed stores holds iff the bit contents are equal, hence reflexive/symmetric/transitive; equal bits give equal hash input for every length (whole value up to 2000 bits, else the first/last 800 bits at absolute positions + length). '
+          'The hash input is captured at run time by wrapping hash() inside bitstring.bits and compared with the model; pairs/triples over classes, routes, positions, 1999..2001/3601/8193-bit lengths, promotable and non-promotable operands.'),
+    note='Trusted: hash() of a tuple is a function of the tuple; run-time wrapping of hash in the harness process (no source hook).',
+    technique='Coq proof + vm_compute correspondence of the captured hash input', design='§5 C13'),
+ 'C17': dict(
+    text=('Coq theorems: the bytes=/file window equals the selected sub-list exactly when 0<=offset, 0<=length, offset+length<=size and is rejected otherwise; the bytes property refuses non-whole-byte lengths; the tofile chunk constant (read from the source each run) is a positive multiple of 8. '
+          'The window models of bytes=, BytesIO (byte-offset arithmetic), bitarray= and filename=/file handle are evaluated against the implementation for all windows over 0-3-byte sources; tobytes/bytes()/.bytes/tofile (BytesIO and real file), chunked writing and Array tobytes/tofile/fromfile are oracle-checked. Thorough writes 100 MiB + 13 bits into a hashing sink.'),
+    note='PARTIAL proof: tofile_eq_tobytes for all chunk sizes is not yet proved (exercised by cut(n)+tobytes cases and the 100 MiB run). Trusted: a file is its bytes; an empty file cannot be memory-mapped (excluded).',
+    technique='Coq proof (window arithmetic) + vm_compute correspondence + oracle', design='§5 C17'),
 }
 
 def main():
